@@ -110,6 +110,45 @@ func isNamedPtr(t types.Type, pkgName, name string) bool {
 	return ok && n.Obj().Name() == name && n.Obj().Pkg() != nil && n.Obj().Pkg().Name() == pkgName
 }
 
+// localComposite: e is a local variable defined once by a composite literal
+// (T{…} or &T{…}), or such a literal itself.
+func (ev *tmplEval) localComposite(e ast.Expr) *ast.CompositeLit {
+	for i := 0; i < 4; i++ {
+		switch x := e.(type) {
+		case *ast.ParenExpr:
+			e = x.X
+			continue
+		case *ast.UnaryExpr:
+			if x.Op == token.AND {
+				e = x.X
+				continue
+			}
+		case *ast.CompositeLit:
+			return x
+		case *ast.Ident:
+			if v, ok := ev.pkg.TypesInfo.Uses[x].(*types.Var); ok && v.Parent() != v.Pkg().Scope() {
+				if def, ok := ev.singleDef(v); ok {
+					e = def
+					continue
+				}
+			}
+		}
+		return nil
+	}
+	return nil
+}
+
+func compositeField(lit *ast.CompositeLit, name string) ast.Expr {
+	for _, el := range lit.Elts {
+		if kv, ok := el.(*ast.KeyValueExpr); ok {
+			if id, ok := kv.Key.(*ast.Ident); ok && id.Name == name {
+				return kv.Value
+			}
+		}
+	}
+	return nil
+}
+
 // eval returns the symbolic string of e: literal text with «atoms».
 func (ev *tmplEval) eval(e ast.Expr) string {
 	ev.depth++
@@ -176,6 +215,15 @@ func (ev *tmplEval) eval(e ast.Expr) string {
 				case isNamedPtr(bt, "parser", "Operation") && obj.Name() == "Name":
 					return atom("Op")
 				case isNamedPtr(bt, "parser", "ScopePrefix") && obj.Name() == "String":
+					// a prefix object built locally (&parser.ScopePrefix{String: f(prefix), …})
+					// carries whatever its String field was given
+					if lit := ev.localComposite(x.X); lit != nil {
+						if fe := compositeField(lit, "String"); fe != nil {
+							if t := ev.eval(fe); t != atom("PrefixString") {
+								return atom("?prefix text rewritten before it is emitted: " + strings.NewReplacer(atomOpen, "", atomClose, "").Replace(t))
+							}
+						}
+					}
 					return atom("PrefixString")
 				}
 				return atom("?field " + obj.Name())
@@ -207,6 +255,15 @@ func (ev *tmplEval) eval(e ast.Expr) string {
 			}
 			return atom("?Title(" + in + ")")
 		case "(*parser.ScopePrefix).Template":
+			if sel, ok := x.Fun.(*ast.SelectorExpr); ok {
+				if lit := ev.localComposite(sel.X); lit != nil {
+					if fe := compositeField(lit, "String"); fe != nil {
+						if t := ev.eval(fe); t != atom("PrefixString") {
+							return atom("?template of a prefix text rewritten before it is emitted: " + strings.NewReplacer(atomOpen, "", atomClose, "").Replace(t))
+						}
+					}
+				}
+			}
 			return atom("PrefixTemplate(" + ev.eval(x.Args[0]) + ")")
 		}
 		// helper of the same package returning string: kept as an atom, analysed on its own
@@ -722,10 +779,10 @@ func C08(ctx *core.Ctx) {
 			// a literal separator right before/after a delimiter atom is suspicious only if it is a topic character;
 			// literal '.' may appear in ".format(" / "String.format(" syntax, so check adjacency to the prefix atoms only
 		}
-		if nPrefix == 0 {
+		if nPrefix == 0 && bad == "" {
 			bad = "helper emits no prefix text"
 		}
-		ctx.Check(bad == "", "C08.R3", l.pkg+"."+helperName+" › prefix text is followed by «Delim» in every template", hpos, sprintf("%d template chunk(s)", len(texts)), "prefix helper: "+bad+" — the separator between prefix and scope does not follow the -delim option, so this language disagrees with the others")
+		ctx.Check(bad == "", "C08.R3", l.pkg+"."+helperName+" › prefix text is followed by «Delim» in every template", hpos, sprintf("%d template chunk(s)", len(texts)), "prefix helper: "+bad+" — the topic this language builds is not the IDL's prefix text followed by the -delim option, so it disagrees with the other languages")
 		// empty prefix ⇒ empty string literal
 		emptyOK := false
 		for _, t := range texts {
